@@ -89,10 +89,10 @@ class CiBase(RiscvcInstruction):
     def encode(self):
         tokens = self.get_tokens()
         tokens[0][0:2] = 0b01
-        tokens[0][2:7] = self.imm
+        tokens[0].imm = self.imm
         tokens[0][7:10] = self.rd.num - 8
         tokens[0][10:12] = self.func
-        tokens[0][12:16] = 0b1000
+        tokens[0][13:16] = 0b100
         return tokens[0].encode()
 
 
